@@ -587,3 +587,41 @@ register(Obligation(name="C03.transforms.torch_backend", prop=PROP, engine="B", 
                     run=NativeCases(nat_transforms_torch, "transforms with the Torch backend (matrices, spin stacks, vectors; full and restricted basis): inverses, adjoints, column-wise action"),
                     functions=["eminus.operators:I", "eminus.operators:J", "eminus.operators:Idag", "eminus.operators:Jdag", "eminus.backend:fftn", "eminus.backend:ifftn"],
                     doc="BOUNDED: inverse / adjoint / column-wise laws of the transforms under the Torch backend (the property under the package's default backend, not a backend comparison)"))
+
+
+# writes-frame of the operators (AST; shared rule in contracts/frame_common.py)
+from contracts.frame_common import WritesFrame  # noqa: E402
+
+def _operators_frame_replay():
+    """every operator applied to arrays in every layout (vector, matrix, spin stack; full and cut-off basis; k-point list): the argument is bit-identical afterwards"""
+    at = native_atoms(Nk=2, Nspin=2)
+    rng = np.random.default_rng(0)
+    changed = []
+
+    def probe(name, f, arr):
+        keep = [np.array(np.asarray(x), copy=True) for x in arr] if isinstance(arr, list) else np.array(np.asarray(arr), copy=True)
+        try:
+            f(arr)
+        except Exception:  # noqa: BLE001
+            return
+        same = all(np.array_equal(np.asarray(x), k) for x, k in zip(arr, keep)) if isinstance(arr, list) else np.array_equal(np.asarray(arr), keep)
+        if not same:
+            changed.append(name)
+
+    nact, nfull = len(at.Gk2c[0]), at.Ns
+    for label, shape in (("active matrix", (nact, 2)), ("full matrix", (nfull, 2)), ("active vector", (nact,)), ("full vector", (nfull,)), ("active stack", (2, nact, 2)), ("full stack", (2, nfull, 2))):
+        for name in ("I", "J", "Idag", "Jdag", "O", "L", "Linv", "K"):
+            op = getattr(at, name)
+            probe(f"{name} on {label}", lambda a, op=op, name=name: op(a, 0) if name in ("I", "J", "Idag", "Jdag", "L", "K") else op(a), rnd(rng, *shape))
+        probe(f"T on {label}", lambda a: at.T(a, np.array([0.3, 0.1, -0.2])), rnd(rng, *shape))
+    Wl = [rnd(rng, 2, len(at.Gk2c[ik]), 2) for ik in range(at.kpts.Nk)]
+    for name in ("I", "O", "L", "K", "T"):
+        probe(f"{name} on a k-point list", (lambda a: at.T(a, np.array([0.3, 0.1, -0.2]))) if name == "T" else getattr(at, name), Wl)
+    return bool(changed), dict(arguments_modified_by=changed[:8])
+
+
+register(Obligation(name="C03.operators.writes_frame", prop=PROP, engine="Z", run=WritesFrame(("eminus.operators",), replay_fn=_operators_frame_replay), assumes=("cpython",),
+                    functions=["eminus.operators:O", "eminus.operators:L", "eminus.operators:Linv", "eminus.operators:K", "eminus.operators:I", "eminus.operators:J",
+                               "eminus.operators:Idag", "eminus.operators:Jdag", "eminus.operators:T"],
+                    doc="frame (writes): no operator stores in place into the coefficient array or the Atoms object it is handed (the transforms fill arrays they allocate themselves); "
+                        "an operator can be applied to the same array any number of times"))
